@@ -227,8 +227,37 @@ fn flood_child(n: usize) -> i32 {
     }
 }
 
+/// The reloader has gone (its source let go of the event sender, the thread left its loop):
+/// `hot_reload` must still return, for one caller and for several at once.
+fn gone_child(callers: usize) -> i32 {
+    trace_enable(false);
+    let mem = Mem::new(true);
+    mem.write("q", "x", b"3");
+    let cache = AssetCache::with_source(mem.clone());
+    cache.load::<TInt>("q").unwrap();
+    mem.write("q", "x", b"4");
+    mem.send(vec![OwnedDirEntry::File("q".into(), "x".into())]);
+    std::thread::sleep(Duration::from_millis(30));
+    cache.hot_reload();
+    mem.drop_sender();
+    // the reloader notices the closed event channel and leaves
+    std::thread::sleep(Duration::from_millis(300));
+    std::thread::scope(|s| {
+        for _ in 0..callers {
+            s.spawn(|| {
+                for _ in 0..20 {
+                    cache.hot_reload();
+                }
+            });
+        }
+    });
+    cache.hot_reload();
+    0
+}
+
 pub fn child(a: &Args) -> i32 {
     match a.get("kind") {
+        Some("gone") => gone_child(a.get("n").and_then(|x| x.parse().ok()).unwrap_or(1)),
         Some("flood") => flood_child(a.get("n").and_then(|x| x.parse().ok()).unwrap_or(100)),
         Some("shape") => shape_child(a.get("spec").unwrap_or("1;")),
         Some("panic") => panic_child(),
@@ -311,7 +340,7 @@ fn all_shapes(max_nodes: usize, rng: &mut Rng, extra_random: usize) -> Vec<Strin
 
 pub fn run(a: &Args) {
     let mut rng = Rng::new(a.seed);
-    let parts = a.get("parts").unwrap_or("shapes,panic,flood,conc").to_string();
+    let parts = a.get("parts").unwrap_or("shapes,panic,flood,conc,gone").to_string();
     let mut evals = 0u64;
     let mut samples: Vec<String> = vec![];
     let mut distinct = std::collections::HashSet::new();
@@ -391,6 +420,25 @@ pub fn run(a: &Args) {
                     jstr(&e)
                 ),
             );
+        }
+    }
+
+    // (E) hot_reload once the reloader thread has left
+    if parts.contains("gone") && a.replay.is_none() {
+        for n in [1usize, 4] {
+            evals += 1;
+            distinct.insert(format!("gone {n}"));
+            if let Err(e) = run_child(&["--kind", "gone", "--n", &n.to_string()], Duration::from_secs(10)) {
+                violation(
+                    &a.out,
+                    "hot_reload-hangs-after-reloader-exit",
+                    format!(
+                        "{{\"kind\": \"the source dropped its event sender, the reloader left; then {n} thread(s) call hot_reload\", \"observed\": {}}}",
+                        jstr(&e)
+                    ),
+                );
+                break;
+            }
         }
     }
 
